@@ -1,15 +1,20 @@
 #!/bin/bash
 # seedtest.sh <out-dir> <property> [tier]  -- confirm a seeded change and run the property's check against it
 # out-dir holds patch.diff, demo_test.go, meta.json
+# VERIF_REPO: the tree the patch is applied to and the check runs against (default /repo; the seed matrix uses scratch
+# worktrees so that several seeds are checked side by side)
 set -u
 OUT=$(readlink -f $1); P=$2; TIER=${3:-quick}
+R=${VERIF_REPO:-/repo}
+V=${VERIF_DIR:-/verif}      # where the checks are run from (the seed matrix runs them from a snapshot)
+LOG=${SEED_LOG:-/tmp/mut/v_check.log}
 W=/tmp/mut/verify
 # SKIP_CONFIRM=1: the change was confirmed before (meta.json "confirmed"); only run the check against it
 if [ "${SKIP_CONFIRM:-0}" = 1 ]; then
-  git -C /repo apply $OUT/patch.diff || { echo "RESULT $OUT apply-to-repo-failed"; exit 0; }
-  (cd /verif && timeout 3000 ./check $P $TIER > /tmp/mut/v_check.log 2>&1); RC=$?
-  git -C /repo checkout -- .
-  tail -2 /tmp/mut/v_check.log | cut -c1-300
+  git -C $R apply $OUT/patch.diff || { echo "RESULT $OUT apply-to-repo-failed"; exit 0; }
+  (cd $V && VERIF_REPO=$R timeout 3000 ./check $P $TIER > $LOG 2>&1); RC=$?
+  git -C $R checkout -- .
+  tail -2 $LOG | cut -c1-300
   if [ $RC -eq 1 ]; then echo "RESULT $OUT DETECTED by $P $TIER"; elif [ $RC -eq 0 ]; then echo "RESULT $OUT MISSED by $P $TIER"; else echo "RESULT $OUT BROKEN rc=$RC"; fi
   exit 0
 fi
@@ -26,9 +31,9 @@ rm -f $W/zz_demo_test.go
 git -C $W checkout -q -- .
 echo "confirm: demo-on-clean=$CLEAN (want 0) demo-on-mutant=$MUT (want !=0) suite-on-mutant=$SUITE (want 0)"
 if [ $CLEAN -ne 0 ] || [ $MUT -eq 0 ] || [ $SUITE -ne 0 ]; then echo "RESULT $OUT not-confirmed"; exit 0; fi
-# run the check against the change applied to /repo, then undo
-git -C /repo apply $OUT/patch.diff || { echo "RESULT $OUT apply-to-repo-failed"; exit 0; }
-(cd /verif && timeout 3000 ./check $P $TIER > /tmp/mut/v_check.log 2>&1); RC=$?
-git -C /repo checkout -- .
-tail -2 /tmp/mut/v_check.log | cut -c1-300
+# run the check against the change applied to the tree, then undo
+git -C $R apply $OUT/patch.diff || { echo "RESULT $OUT apply-to-repo-failed"; exit 0; }
+(cd $V && VERIF_REPO=$R timeout 3000 ./check $P $TIER > $LOG 2>&1); RC=$?
+git -C $R checkout -- .
+tail -2 $LOG | cut -c1-300
 if [ $RC -eq 1 ]; then echo "RESULT $OUT DETECTED by $P $TIER"; elif [ $RC -eq 0 ]; then echo "RESULT $OUT MISSED by $P $TIER"; else echo "RESULT $OUT BROKEN rc=$RC"; fi
